@@ -677,6 +677,229 @@ def axis_angle_case(T, Q):
     return [R.Case(name, [k], judge)]
 
 
+def axis_angle_general_case(T, Q):
+    """gtx/matrix_interpolation axisAngle() on a rotation matrix in general position: m = c I + s [n]x + (1 - c) n n^T with |n| = 1 (the matrix axisAngleMatrix(n, a)
+    builds, c and s standing for cos a and sin a).  On every decision path that does not take the near-symmetric branch (that one is the half-turn rule's):
+    the axis is sign(s) n (unit, parallel to n, oriented with the sine) and the angle is acos(c) (0 / pi where the cosine test clamps), i.e. the same rotation."""
+    from rules import c04 as Q4
+    sc = G.scalar(T)
+    tg = sc.tag + ('' if Q == 'highp' else '_' + Q)
+    m4, v3, v2 = G.mat(4, 4, T, Q), G.vec(3, T, Q), G.vec(2, T, Q)
+    body = ('{ typedef %s M; typedef %s S; S c = cs->x, s = cs->y, t = S(1) - c, x = n->x, y = n->y, z = n->z; M m(1); '
+            'm[0][0] = t * x * x + c; m[0][1] = t * x * y + z * s; m[0][2] = t * x * z - y * s; '
+            'm[1][0] = t * x * y - z * s; m[1][1] = t * y * y + c; m[1][2] = t * y * z + x * s; '
+            'm[2][0] = t * x * z + y * s; m[2][1] = t * y * z - x * s; m[2][2] = t * z * z + c; '
+            '%s ax; S an; axisAngle(m, ax, an); *oa = ax; *og = an; }' % (m4.cpp, sc.cpp, v3.cpp))
+    k = K('axisAngle_general_%s' % tg, [Par('oa', v3, False), Par('og', sc, False), Par('n', v3), Par('cs', v2)], body, CFG)
+    name = 'axisAngle(rotation by (c, s) about n)<%s>' % tg
+
+    def judge(ctx):
+        import math
+        err = ctx.compile_error(k)
+        if err:
+            return [R.ob(name, 'existence', R.REFUTED, 'cannot be instantiated: ' + err, kernel=k.source())]
+        ax = L.out_lanes(ctx, k, v3, base='oa')
+        ang = L.out_lanes(ctx, k, sc, base='og')[0]
+        n = [L.in_atom('n', v3, i) for i in range(3)]
+        c_, s_ = L.in_atom('cs', v2, 0), L.in_atom('cs', v2, 1)
+        atoms = [list(x.t)[0][0] for x in n]
+        nz2 = Poly.const(1) - n[0] * n[0] - n[1] * n[1]
+        norm = lambda x: P.reduce_ideal(x, atoms[2], nz2, deg=2)
+
+        def hook(kind, arg, pc):
+            if kind == 'fabs':
+                return None
+            a2 = norm(arg)
+            if len(a2.t) == 1:
+                (m, cf), = a2.t.items()
+                rc = P._isqrt_frac(Fraction(cf)) if cf > 0 else None
+                if rc is not None and m and not any(m.count(x) % 2 for x in set(m)):
+                    root = Poly({tuple(sorted(x for x in set(m) for _ in range(m.count(x) // 2))): Fraction(1)})
+                    return Poly.atom(('fabs', ('P', root))).scale(rc)
+            return None
+
+        has = lambda t_: any(y.op == 'fn' and y.args[0] == 'acos' for y in tm.walk(t_))
+
+        def evaluate(cx):
+            # the near-symmetric branch is pruned as soon as the selection at the root of the angle chooses the arm without the arc cosine
+            if ang.op == 'select' and has(ang.args[1]) != has(ang.args[2]):
+                if not has(ang.args[1] if cx.decide(ang.args[0]) else ang.args[2]):
+                    return None
+            return (cx.fpoly(ang),) + tuple(cx.fpoly(ax[i]) for i in range(3))
+        try:
+            leaves = P.decision_paths(lambda a_: P.NormCtx(a_, norm, hook), evaluate, max_leaves=6000)
+        except P.TooManyPaths:
+            return [R.ob(name, 'axis_angle', R.UNDECIDED, 'too many decision paths')]
+        res = []
+        seen = set()
+        nsym = 0
+        acos_c = Poly.atom(('fn:acos', ('P', c_)))
+        csat = (list(c_.t)[0][0], list(s_.t)[0][0])
+        for asg, infos, got, cx in leaves:
+            if got is None:
+                nsym += 1
+                continue
+            cons = [(v, norm(infos[at][0] - infos[at][1])) for at, v in asg.items() if at[0] == 'pair']
+            has_acos = any(P.atom_key(a_)[0] == 'fn:acos' for a_ in got[0].atoms())
+            key = tuple(g.key() for g in got)
+            if key in seen:
+                continue
+            seen.add(key)
+            bi = len(seen)
+            regime = ', '.join('%s %s %s' % (P.show_poly(infos[at][0], limit=2), '<' if v == 'lt' else '>', P.show_poly(infos[at][1], limit=2)) for at, v in asg.items() if at[0] == 'pair')[-300:]
+            bad, diffs = [], []
+            angwit = ''
+            sabs = Poly.atom(('fabs', ('P', s_)))
+            post = lambda x: norm(Q4.abs_square(x))
+            for i in range(3):
+                d = got[1 + i] * sabs - n[i] * s_
+                if not Q4.zero_in_all_sign_cases(d, cx, post):
+                    bad.append('axis.%s |s| - n.%s s = %s' % ('xyz'[i], 'xyz'[i], P.show_poly(P.reduce_inv(d), limit=4)))
+                    diffs.append(d)
+            if has_acos:
+                okang = (got[0] - acos_c).is_zero()
+                wantang = 'acos(c)'
+            else:
+                # a constant angle is right only at the clamped ends: 0 where the path has c >= 1, pi where it has c <= -1 (the comparisons of the path itself)
+                val = float(got[0].cval() if got[0].t else 0) if got[0].is_const() else None
+                hi = any((v == 'gt' and e_ == c_ - Poly.const(1)) or (v == 'lt' and e_ == Poly.const(1) - c_) for v, e_ in cons)
+                lo = any((v == 'lt' and e_ == c_ + Poly.const(1)) or (v == 'gt' and e_ == -c_ - Poly.const(1)) for v, e_ in cons)
+                okang = val is not None and ((hi and abs(val) < 1e-12) or (lo and abs(val - math.pi) < 1e-6))
+                wantang = '0' if hi else 'pi' if lo else 'acos(c)'
+                if not okang and val is not None and not hi and not lo and all(P.transparent(e_) for _, e_ in cons):
+                    # a point of the path strictly inside -1 < c < 1 (unit n, c^2 + s^2 = 1), where acos(c) is neither 0 nor pi
+                    env = P.find_witness('gt', c_ + Poly.const(1), [c_], extra=[('lt', c_ - Poly.const(1))] + cons, spheres=(tuple(atoms), csat), tries=1500)
+                    if env is not None:
+                        angwit = ' -- e.g. at %s the angle is acos(%s)' % (P.show_env(env), env[csat[0]])
+            if not okang:
+                bad.append('angle = %s, not %s%s' % (P.show_poly(got[0], limit=3), wantang, angwit))
+            status, wit = (R.PROVED, '') if not bad else (R.REFUTED, '') if angwit else (R.UNDECIDED, '')
+            if bad and diffs:
+                for d in diffs[:2]:
+                    d2 = P.reduce_inv(d)
+                    if not all(P.transparent(x) for x in [d2] + [e_ for _, e_ in cons]):
+                        continue
+                    env = P.find_witness(cons[0][0], cons[0][1], [d2], extra=cons[1:], spheres=(tuple(atoms), csat), tries=1500) if cons else None
+                    if env is not None:
+                        status = R.REFUTED
+                        wit = ' -- e.g. at %s' % P.show_env(env)
+                        break
+            res.append(R.ob('%s.path%d' % (name, bi), 'axis_angle', status, ('axis = sign(s) n, angle = %s  [%s]' % (wantang, regime)) if not bad else '%s%s  [%s]' % ('; '.join(bad[:3]), wit, regime),
+                            where=R.where_of(ctx.fn(k), ax[0]) if status == R.REFUTED else None, kernel=k.source()))
+        if not res:
+            res.append(R.ob(name, 'axis_angle', R.UNDECIDED, 'no path through the general branch found (%d near-symmetric paths)' % nsym))
+        return res
+    return R.Case(name, [k], judge)
+
+
+CFG_OPQ = Cfg('xform_opaque', headers=HDR, defines=('GLM_ENABLE_EXPERIMENTAL',), noinline=(r'glm::axisAngle<', r'glm::axisAngleMatrix<'))
+
+
+def interpolate_case(T, Q):
+    """gtx/matrix_interpolation interpolate(m1, m2, delta) as a composition of its (separately decided) parts, which are kept as opaque calls:
+      (1) axisAngle() is applied to a matrix whose rotation block is m2 * transpose(rot(m1)), i.e. the rotation taking m1's frame to m2's;
+      (2) axisAngleMatrix() receives exactly the axis axisAngle() returned and its angle times delta;
+      (3) the result is that rotation times rot(m1), with the translation column replaced by the affine blend m1[3] + delta (m2[3] - m1[3])."""
+    sc = G.scalar(T)
+    tg = sc.tag + ('' if Q == 'highp' else '_' + Q)
+    m4 = G.mat(4, 4, T, Q)
+    w = sc.elem * 8
+    k = K('interpolate_%s' % tg, [Par('o', m4, False), Par('a', m4), Par('b', m4), Par('d', sc)], '*o = interpolate(*a, *b, *d);', CFG_OPQ)
+    name = 'interpolate(m1,m2,delta)<%s>' % tg
+
+    def judge(ctx):
+        err = ctx.compile_error(k)
+        if err:
+            return [R.ob(name, 'existence', R.REFUTED, 'cannot be instantiated: ' + err, kernel=k.source())]
+        it = ctx.fn(k)
+        aa = [c for n, c, _ in it.calls if 'axisAngleI' in n]
+        am = [c for n, c, _ in it.calls if 'axisAngleMatrixI' in n]
+        if len(aa) != 1 or len(am) != 1:
+            return [R.ob(name, 'interpolate', R.UNDECIDED, 'expected one call of axisAngle and one of axisAngleMatrix, found %d and %d' % (len(aa), len(am)), kernel=k.source())]
+        aa, am = aa[0], am[0]
+        pc = P.PCtx()
+        A = lambda c, r: L.in_atom('a', m4, (c, r))
+        B = lambda c, r: L.in_atom('b', m4, (c, r))
+        d = L.in_atom('d', sc, 0)
+        res = []
+        # (1) the matrix handed to axisAngle
+        marg = aa.args[1]
+        for c in range(3):
+            for r in range(3):
+                got = pc.fpoly(tm.slice_(marg, m4.lanes[(c, r)] * 8, w))
+                want = sum((B(kk, r) * A(kk, c) for kk in range(3)), Poly())
+                st, detail = L.compare_poly(got, want)
+                res.append(R.ob('%s.delta_rotation[%d][%d]' % (name, c, r), 'interpolate', st,
+                                'axisAngle() is applied to m2 * transpose(rot(m1))' if st == R.PROVED else 'argument of axisAngle: ' + detail, kernel=k.source()))
+        # (2) what axisAngleMatrix receives
+        axis, ang = am.args[2], am.args[3]
+        ok_axis = axis.op == 'callout' and axis.args[0] is aa and axis.args[1] == 1
+        res.append(R.ob(name + '.axis', 'interpolate', R.PROVED if ok_axis else R.UNDECIDED,
+                        'axisAngleMatrix() receives the axis returned by axisAngle()' if ok_axis else 'axis argument is %s' % tm.show(axis, 4), kernel=k.source()))
+        angle_out = tm.mk('callout', (aa, 2), w)
+        try:
+            pa = pc.fpoly(ang)
+            wa = pc.fpoly(angle_out) * d
+            st, detail = L.compare_poly(pa, wa)
+        except (P.NonFinite, P.TooBig, ValueError) as e:
+            st, detail = R.UNDECIDED, 'no normal form: %r' % e
+        res.append(R.ob(name + '.angle', 'interpolate', st, 'axisAngleMatrix() receives angle * delta' if st == R.PROVED else 'angle argument: ' + detail, kernel=k.source()))
+        # (3) the result
+        Rm = lambda c, r: pc.fpoly(tm.slice_(tm.mk('callout', (am, 0), m4.size * 8), m4.lanes[(c, r)] * 8, w))
+        rot = lambda c, r: (A(c, r) if (c < 3 and r < 3) else Poly.const(1) if (c == 3 and r == 3) else Poly())
+        lanes = L.out_lanes(ctx, k, m4)
+        # a realisable point for refutations: m1 = the quarter turn about x, m2 = (quarter turn about z) * m1 plus translations, delta = 1; the delta rotation is
+        # then the quarter turn about z (clause 1), which axisAngle / axisAngleMatrix reproduce (their own rules): the opaque result lanes take its entries
+        RX = [[1, 0, 0, 0], [0, 0, 1, 0], [0, -1, 0, 0], [0, 0, 0, 1]]          # [column][row]
+        RZ = [[0, 1, 0, 0], [-1, 0, 0, 0], [0, 0, 1, 0], [0, 0, 0, 1]]
+        M1 = [list(col) for col in RX]
+        M1[3] = [3, 5, 7, 1]
+        M2 = [[sum(RZ[kk][r] * RX[c][kk] for kk in range(4)) for r in range(4)] for c in range(4)]
+        M2[3] = [11, 13, 17, 1]
+        env = {}
+        for c in range(4):
+            for r in range(4):
+                env[list(A(c, r).t)[0][0]] = Fraction(M1[c][r])
+                env[list(B(c, r).t)[0][0]] = Fraction(M2[c][r])
+                rp = Rm(c, r)
+                if len(rp.t) == 1 and len(list(rp.t)[0]) == 1:
+                    env[list(rp.t)[0][0]] = Fraction(RZ[c][r])
+        env[list(d.t)[0][0]] = Fraction(1)
+
+        def value(p_):
+            tot = Fraction(0)
+            for mono, cf in p_.t.items():
+                v = Fraction(cf)
+                for a_ in mono:
+                    if a_ not in env:
+                        return None
+                    v *= env[a_]
+                tot += v
+            return tot
+        for c in range(4):
+            for r in range(4):
+                try:
+                    got = pc.fpoly(lanes[(c, r)])
+                except (P.NonFinite, P.TooBig, ValueError) as e:
+                    res.append(R.ob('%s[%d][%d]' % (name, c, r), 'interpolate', R.UNDECIDED, 'no normal form: %r' % e, kernel=k.source()))
+                    continue
+                if c == 3 and r < 3:
+                    want = A(3, r) + d * (B(3, r) - A(3, r))
+                    text = 'm1[3] + delta (m2[3] - m1[3])'
+                else:
+                    want = sum((Rm(kk, r) * rot(c, kk) for kk in range(4)), Poly())
+                    text = '(axisAngleMatrix(axis, angle delta) * rot(m1))[%d][%d]' % (c, r)
+                st, detail = L.compare_poly(got, want)
+                if st == R.UNDECIDED:
+                    gv, wv = value(got), value(want)
+                    if gv is not None and wv is not None and gv != wv:
+                        st = R.REFUTED
+                        detail += '  -- e.g. m1 = quarter turn about x with translation (3,5,7), m2 = (quarter turn about z) * rot(m1) with translation (11,13,17), delta = 1: entry is %s, should be %s' % (gv, wv)
+                res.append(R.ob('%s[%d][%d]' % (name, c, r), 'interpolate', st, text if st == R.PROVED else detail, where=None if st == R.PROVED else R.where_of(it, lanes[(c, r)]), kernel=k.source()))
+        return res
+    return R.Case(name, [k], judge)
+
+
 def cases(tier):
     cs = []
     types = [('float', 'highp'), ('double', 'highp')]
@@ -686,6 +909,8 @@ def cases(tier):
         cs += type_cases(T, Q, tier)
         cs.append(decompose_case(T, Q))
         cs += axis_angle_case(T, Q)
+        cs.append(interpolate_case(T, Q))
+        cs.append(axis_angle_general_case(T, Q))
     cs += canaries()
     return cs
 
@@ -714,7 +939,8 @@ EXPLANATION = ('static: translate/rotate/scale/shear (+ _slow forms), the gtx tr
                'polynomial identities on its own lanes')
 ASSUMPTIONS = ['float operations read as exact real arithmetic (the elementary-matrix product is an algebraic identity; rounding differences between fast and _slow paths are not decided)',
                'cos/sin are uninterpreted atoms of the angle: equal up to the ring axioms only (no angle-sum identities needed)',
-               'decompose is decided for matrices composed with positive scales and M[3][3] == 1 (negative scales are returned with flipped signs, a homogeneous factor is not a component); axisAngle() and interpolate() are not decided',
+               'decompose is decided for matrices composed with positive scales and M[3][3] == 1 (negative scales are returned with flipped signs, a homogeneous factor is not a component)',
+               'axisAngle() is decided on exact half turns and on rotation matrices in general position (c I + s [n]x + (1 - c) n n^T, |n| = 1, c^2 + s^2 = 1 for witnesses); the near-symmetric branch for other inputs is not; interpolate() is decided as a composition of opaque axisAngle / axisAngleMatrix calls',
                'handedness dispatch of lookAt is decided by the C08 dispatch rule']
 TRUSTED = ['clang/LLVM 14', 'tools/irtool.cc', 'laneflow normal forms', 'elementary matrices in rules/c09.py (each a few lines, from the property / manual)']
 LEVEL = 'proof'
